@@ -103,3 +103,44 @@ package filters
 //@   loop 1:
 //@     invariant entry(i) <= i && i <= len(data) && forall k int :: {data[k]} entry(i) <= k && k < i ==> wsByte(data[k])
 //@     decreases len(data) - i
+
+// ---- ASCII85Decode (ISO 32000-1 7.4.3) ----
+// a group of 5 base-85 digits d0..d4 (characters '!'..'u' minus 33) encodes the 32-bit big-endian value
+// d0*85^4 + ... + d4; a final partial group of n >= 2 digits is padded with 'u' (84) and yields n-1 bytes;
+// 'z' stands for four zero bytes; white space is ignored; "~>" ends the data.
+//@ spec rec func fold85(ds []byte, n int) int = n <= 0 ? 0 : fold85(ds, n - 1) * 85 + ds[n-1]
+//@ spec func fold85Bound(n int) int = n <= 0 ? 0 : (n == 1 ? 255 : (n == 2 ? 21930 : (n == 3 ? 1864305 : (n == 4 ? 158466180 : 13469625555))))
+//@ spec rec func nonWS(data []byte, s int, n int) int = n <= 0 ? 0 : nonWS(data, s, n - 1) + (wsByte(data[s+n-1]) ? 0 : 1)
+//@ spec opaque func noWSIn(data []byte, a int, b int) bool = forall k int :: {data[k]} a <= k && k < b ==> !wsByte(data[k])
+//@ spec func be32byte(v int, j int) int = mod(div(v, (j == 0 ? 16777216 : (j == 1 ? 65536 : (j == 2 ? 256 : 1)))), 256)
+//@ func ASCII85Decode results (res, err)
+//@   property C05, C02
+//@   loop 0:
+//@     invariant 0 <= i && i <= len(data)
+//@     decreases len(data) - i
+//@   loop 1:
+//@     invariant 0 <= i && i <= len(data)
+//@     step white_space_ignored: wsByte(data[prev(i)]) ==> i == prev(i) + 1 && len(result) == prev(len(result))
+//@     step z_is_four_zero_bytes: !wsByte(data[prev(i)]) && data[prev(i)] == 'z' ==> i == prev(i) + 1 && len(result) == prev(len(result)) + 4 && (forall j int :: {result[j]} prev(len(result)) <= j && j < len(result) ==> result[j] == 0)
+//@     step group_padded_to_five: !wsByte(data[prev(i)]) && data[prev(i)] != 'z' ==> len(digits) == 5
+//@     step group_size: !wsByte(data[prev(i)]) && data[prev(i)] != 'z' ==> 1 <= nonWS(data, prev(i), i - prev(i)) && nonWS(data, prev(i), i - prev(i)) <= 5 && numBytes == min(nonWS(data, prev(i), i - prev(i)) - 1, 4)
+//@     step group_digits_from_data: !wsByte(data[prev(i)]) && data[prev(i)] != 'z' && noWSIn(data, prev(i), i) ==> forall m int :: {digits[m]} 0 <= m && m < i - prev(i) ==> data[prev(i) + m] >= '!' && data[prev(i) + m] <= 'u' && digits[m] == data[prev(i) + m] - 33
+//@     step group_padding: !wsByte(data[prev(i)]) && data[prev(i)] != 'z' ==> forall k int :: {digits[k]} nonWS(data, prev(i), i - prev(i)) <= k && k < 5 ==> digits[k] == 84
+//@     step group_value_in_range: !wsByte(data[prev(i)]) && data[prev(i)] != 'z' ==> fold85(digits, 5) < 4294967296
+//@     step group_bytes: !wsByte(data[prev(i)]) && data[prev(i)] != 'z' ==> len(result) == prev(len(result)) + numBytes && (forall k int :: {result[k]} prev(len(result)) <= k && k < len(result) ==> result[k] == be32byte(fold85(digits, 5), k - prev(len(result))))
+//@     step earlier_output_kept: forall k int :: {result[k]} 0 <= k && k < prev(len(result)) ==> result[k] == prev(result)[k]
+//@     decreases len(data) - i
+//@   loop 2:
+//@     invariant entry(i) <= i && i <= len(data) && len(digits) <= 5 && len(digits) == nonWS(data, entry(i), i - entry(i)) && same(result, entry(result))
+//@     invariant noWSIn(data, entry(i), i) ==> len(digits) == i - entry(i) && (forall m int :: {digits[m]} 0 <= m && m < len(digits) ==> data[entry(i) + m] >= '!' && data[entry(i) + m] <= 'u' && digits[m] == data[entry(i) + m] - 33)
+//@     decreases len(data) - i
+//@   loop 3:
+//@     invariant entry(len(digits)) <= len(digits) && len(digits) <= 5 && (forall k int :: {digits[k]} 0 <= k && k < entry(len(digits)) ==> digits[k] == entry(digits)[k]) && (forall k int :: {digits[k]} entry(len(digits)) <= k && k < len(digits) ==> digits[k] == 84)
+//@     decreases 5 - len(digits)
+//@   loop 4:
+//@     invariant value == fold85(digits, $i) && value >= 0 && len(digits) == 5 && value <= fold85Bound($i)
+//@   loop 5:
+//@     split j == 0
+//@     split j == 1
+//@     split j == 2
+//@     invariant 0 <= j && j <= numBytes && numBytes <= 4 && len(result) == entry(len(result)) + j && (forall k int :: {result[k]} 0 <= k && k < entry(len(result)) ==> result[k] == entry(result)[k]) && (forall k int :: {result[k]} entry(len(result)) <= k && k < len(result) ==> result[k] == be32byte(value, k - entry(len(result))))
